@@ -222,6 +222,25 @@ class Fn:
             self.rewrites.append(('R8', f'{n}x message argument of {ctor}(..)', stub))
         return self
 
+    def erase_macro(self, name):
+        """R8: remove every `name!( ... );` statement (tracing / logging)"""
+        n = 0
+        while True:
+            m = re.search(re.escape(name) + r'\s*\(', self.body)
+            if not m:
+                break
+            c = match_brace(self.body, m.end() - 1)
+            e = c + 1
+            while e < len(self.body) and self.body[e] in ' \n\t':
+                e += 1
+            if e < len(self.body) and self.body[e] == ';':
+                e += 1
+            self.body = self.body[:m.start()] + self.body[e:]
+            n += 1
+        if n:
+            self.rewrites.append(('R8', f'{n}x {name}(..) statement', 'erased'))
+        return self
+
     def truncate_after(self, anchor, tail, why):
         """R13 prefix extraction: keep the body up to and including `anchor`, drop the rest, end with `tail`.
         Only sound for contracts about the state at that point; the dropped suffix is named in the evidence."""
